@@ -1,0 +1,19 @@
+//go:build verif
+
+package bdn
+
+import "go.dedis.ch/kyber/v4"
+
+// Exports for the /verif correspondence harness (property C09): the
+// coefficients and precomputed terms a Mask holds, and the coefficient hash.
+
+// VerifCoefs returns the mask's publicCoefs slice (nil if never computed).
+func VerifCoefs(m *Mask) []kyber.Scalar { return m.publicCoefs }
+
+// VerifTerms returns the mask's publicTerms slice (nil if never computed).
+func VerifTerms(m *Mask) []kyber.Point { return m.publicTerms }
+
+// VerifHashPointToR exposes hashPointToR.
+func VerifHashPointToR(group kyber.Group, pubs []kyber.Point) ([]kyber.Scalar, error) {
+	return hashPointToR(group, pubs)
+}
